@@ -50,6 +50,19 @@ func addrIsConfined(v ssa.Value, depth int) bool {
 					}
 				}
 			}
+		case *ssa.Call:
+			// passed to a statically known function that itself only loads/stores through it
+			callee := r.Call.StaticCallee()
+			if callee == nil || len(callee.Blocks) == 0 || r.Call.IsInvoke() {
+				return false
+			}
+			for i, a := range r.Call.Args {
+				if a == v {
+					if i >= len(callee.Params) || !addrIsConfined(callee.Params[i], depth+1) {
+						return false
+					}
+				}
+			}
 		default:
 			return false
 		}
